@@ -33,7 +33,7 @@ FLOAT_POOL = [0.0, 1.0, -1.0, 0.5, 2.0, 3.25, 1e10, -1e10, 3.4e38, 1e-40, float(
 SEEDS = [bytes([i]) * 32 for i in (1, 2, 3, 4, 5)]
 KEYS = [bytes(SigningKey(s).verify_key) for s in SEEDS]
 CACHE_KEYS = [b'a', b'P', b'k1', b'E', b'X', b's', b'IR', b'returned', b'timestamp', b'sigfield1', b'', b'\x00']
-STR_KEYS = ['sigfield1', 'sigfield2', 'sigfield8', 'timestamp', 'foo', 'returned', 'missing', 'num', 'flt', 'txt', 'lst']
+STR_KEYS = ['sigfield1', 'sigfield2', 'sigfield8', 'timestamp', 'foo', 'returned', 'missing', 'num', 'flt', 'txt', 'lst', 'ba', 'ba']
 UTF8 = [b'abc', 'héllo'.encode(), '日本'.encode(), b'\xff\xfe', b'', b'a', 'x\U0001f600y'.encode()]
 
 
@@ -74,8 +74,23 @@ class Gen:
         return bytes(r.getrandbits(8) for _ in range(4))
 
     # ---- instruction snippets; each returns bytes
+    fork_code = None      # forkstream: an unassigned code that carries a soft fork in one of the two VMs
+
+    def s_fork(self):
+        r = self.r
+        v = r.choice([op('TRUE'), op('TRUE'), op('FALSE'), push(self.rval()), b''])
+        more = b''.join(push(self.rval()) for _ in range(r.choice([0, 0, 1])))
+        n = r.choice([0, 1, 1, 1, 2, 2, 3, 127, 128, 255])
+        body = more + v + bytes([self.fork_code, n])
+        if r.random() < 0.2:      # the TRY caveat of the property: a raise of the fork op swallowed
+            exc = self.block(3, 0, 2)
+            return op('TRY_EXCEPT') + u16(len(body)) + body + u16(len(exc)) + exc
+        return body
+
     def snippet(self, depth):
         r = self.r
+        if self.fork_code is not None and r.random() < 0.15:
+            return self.s_fork()
         c = r.random()
         if c < 0.30: return self.s_push()
         if c < 0.55: return self.s_arith()
@@ -83,7 +98,7 @@ class Gen:
         if c < 0.80: return self.s_cache()
         if c < 0.90 and depth < self.max_depth: return self.s_control(depth)
         if c < 0.93 and depth < self.max_depth: return self.s_recursive(depth)
-        if c < 0.975: return self.s_misc()
+        if c < 0.985: return self.s_misc()
         return self.s_raw()
 
     def s_push(self):
@@ -147,6 +162,13 @@ class Gen:
 
     def s_stackop(self):
         r = self.r
+        # usually make sure there is something to work on
+        if r.random() < 0.75:
+            return b''.join(push(self.rval()) for _ in range(r.choice([1, 2, 3]))) + self.s_stackop_core()
+        return self.s_stackop_core()
+
+    def s_stackop_core(self):
+        r = self.r
         k = r.choice(['DUP', 'COPY', 'SWAP', 'SWAP2', 'REVERSE', 'DEPTH', 'POP0', 'POP1', 'VERIFY',
                       'EQUAL_VERIFY', 'NOP'])
         if k == 'COPY': return op(k) + u8(r.choice([0, 1, 2, 3, 255]))
@@ -172,7 +194,13 @@ class Gen:
         if k in ('READ_CACHE_STACK', 'READ_CACHE_STACK_SIZE'):
             return push(key) + op(k)
         sk = r.choice(STR_KEYS).encode() if r.random() < 0.92 else self.rbytes(0, 4)
-        return op('GET_VALUE') + u8(len(sk)) + sk
+        gv = op('GET_VALUE') + u8(len(sk)) + sk
+        x = r.random()
+        if x < 0.25:      # the fetched value meets a longer / shorter operand in a bitwise op, a concat, a dup
+            other = push(self.rbytes(7, 12) if r.random() < 0.7 else self.rbytes(0, 3))
+            bop = op(r.choice(['XOR', 'OR', 'AND', 'XOR', 'CONCAT', 'EQUAL']))
+            return (gv + other + bop) if r.random() < 0.5 else (other + gv + bop)
+        return gv
 
     def block(self, depth, lo=0, hi=4):
         return b''.join(self.snippet(depth + 1) for _ in range(self.r.randint(lo, hi)))
@@ -181,7 +209,7 @@ class Gen:
         r = self.r
         k = r.choice(['IF', 'IF', 'IF_ELSE', 'IF_ELSE', 'TRY', 'TRY', 'LOOP', 'DEF', 'CALL', 'DEFCALL',
                       'EVAL', 'RETURN', 'RETURN'])
-        cond = r.choice([op('TRUE'), op('FALSE'), push(self.rval()), b''])
+        cond = r.choice([op('TRUE'), op('TRUE'), op('FALSE'), op('FALSE'), push(self.rval()), push(self.rval()), b''])
         if k == 'IF':
             b = self.block(depth)
             return cond + op('IF') + u16(len(b)) + b
@@ -442,6 +470,7 @@ class Gen:
         if r.random() < 0.1: c['txt'] = 'hé'
         if r.random() < 0.1: c['lst'] = [b'a', 'b', 3]
         if r.random() < 0.05: c['foo'] = True
+        if r.random() < 0.08: c['ba'] = bytearray(self.rbytes(1, 6))
         if r.random() < 0.03: c['timestamp'] = 'notint'
         if r.random() < 0.03: c['sigfield1'] = 5
         return c
